@@ -6,7 +6,7 @@ established by exhaustive evaluation over all (reg, base & 7, displacement varia
 `cdisp8_sound` + an exhaustively checked integer bridge (`sext8_scaled`). Spec side: `parse_*_mem`, `checkMem_base64`,
 `vex_rvm_mem_formOk` (Lemmas/X86Parse.lean). Composition: `vexM_rvm_formOk_*`.
 -/
-import AsmjitVerif.Props.C01Front
+import AsmjitVerif.Props.C01Rows
 set_option linter.constructorNameAsVariable false
 namespace AsmjitVerif.Props.C01
 open Spec.X86 Model.X86 AsmjitVerif.Lemmas.X86Parse
@@ -104,10 +104,16 @@ theorem memDisp_decoded (rb7 rel s : BitVec 32) (hs : s ≤ 6#32) :
 /-! ### `EmitVexEvexM` on a `[base64 + disp]` operand -/
 
 /-- model-side `[base64 + disp]` operand -/
-def memBase (size : Nat) (rb : BitVec 32) (d : BitVec 64) : Mem :=
-  { size := size, baseType := 6, baseId := rb.toNat, indexType := 0, indexId := 0, shift := 0, offset := d, seg := 0, bcst := 0, addrType := 0 }
+def memBase (size : Nat) (rb : BitVec 32) (d : BitVec 64) (seg : Nat := 0) (a32 : Bool := false) (bc : Nat := 0) : Mem :=
+  { size := size, baseType := (if a32 then 5 else 6), baseId := rb.toNat, indexType := 0, indexId := 0, shift := 0, offset := d, seg := seg, bcst := bc, addrType := 0 }
 
 theorem memInfo_gp64 : memInfo 6 0 = 0x0D#32 := by decide
+theorem memInfo_gp32 : memInfo 5 0 = 0x8D#32 := by decide
+
+/-- the address-size prefix of 32-bit address registers in 64-bit mode -/
+def aoBytes (a32 : Bool) : List (BitVec 8) := if a32 then [0x67#8] else []
+/-- `rm_info` of a base-only operand -/
+def rmInfoBase (a32 : Bool) : BitVec 32 := if a32 then 0x8D#32 else 0x0D#32
 
 /-- the prefix word `x` of `EmitVexEvexM` for a base-only operand (no index, no broadcast, no {k}) -/
 def xMb (opcode reg vvvvv rb : BitVec 32) : BitVec 32 :=
@@ -116,40 +122,88 @@ def xMb (opcode reg vvvvv rb : BitVec 32) : BitVec 32 :=
 theorem xMb_eq_xR (opcode reg vvvvv rb : BitVec 32) (hb : rb < 16#32) : xMb opcode reg vvvvv rb = xR opcode 0#32 reg vvvvv rb 0#32 := by
   simp only [xMb, xR]; bv_decide
 
-/-- `EmitVexEvexM` = prefix part, then `EmitModSib` with the (adjusted) opcode word -/
-theorem emitVexEvexM_base_eq (c : Model.X86.Ctx) (opcode reg vvvvv rb : BitVec 32) (size : Nat) (d imm : BitVec 64) (n : Nat)
-    (hm : c.mode64 = true) (hpe : c.preferEvex = false) (hk : c.extraId = 0#32) (hvf : c.vexFlag = true) (hvs : c.vsib = false) :
-    emitVexEvexM c opcode 0#32 (reg + (vvvvv <<< 7)) (memBase size rb d) imm n =
-      (match vexEvexMPrefix c (xMb opcode reg vvvvv rb) opcode 0#32 (memBase size rb d) with
+/-- the options word of a {z} decoration -/
+def zOpt (z : Bool) : BitVec 32 := if z then oZMask else 0#32
+
+/-- the prefix word `x` of `EmitVexEvexM` for a base-only operand with mask register `aaa` -/
+def xMbK (opcode reg vvvvv rb aaa : BitVec 32) (z : Bool) : BitVec 32 :=
+  (((reg + (vvvvv <<< 7)) <<< 4) &&& 0xF980#32) ||| ((rb <<< 2) &&& 0x20#32) ||| extractLLMMMMM opcode (zOpt z) ||| (aaa <<< 16)
+
+/-- `EmitVexEvexM` = prefix part, then `EmitModSib` with the (adjusted) opcode word; mask register `aaa`, {z} as option -/
+theorem emitVexEvexM_base_eq (c : Model.X86.Ctx) (opcode reg vvvvv rb aaa : BitVec 32) (z : Bool) (size : Nat) (d imm : BitVec 64) (n : Nat) (seg : Nat) (a32 : Bool)
+    (hm : c.mode64 = true) (hpe : c.preferEvex = false) (hk : c.extraId = aaa) (hvs : c.vsib = false) :
+    emitVexEvexM c opcode (zOpt z) (reg + (vvvvv <<< 7)) (memBase size rb d seg a32) imm n =
+      (match vexEvexMPrefix c ((if c.vexFlag then xMbK opcode reg vvvvv rb aaa z else xMbK opcode reg vvvvv rb aaa z ||| 0x80000000#32) ||| zOpt z) opcode (zOpt z)
+          (memBase size rb d seg a32) with
        | .error e => .error e
-       | .ok v => emitModSib c v.1 0 v.2 0#32 ((reg + (vvvvv <<< 7)) &&& 7#32) rb 0#32 0x0D#32 (memBase size rb d) imm n false) := by
+       | .ok v => emitModSib c (segmentPrefix seg ++ aoBytes a32 ++ v.1) (segmentPrefix seg).length v.2 (zOpt z) ((reg + (vvvvv <<< 7)) &&& 7#32) rb 0#32
+                    (rmInfoBase a32) (memBase size rb d seg a32) imm n false) := by
   unfold emitVexEvexM
-  simp only [memBase, xMb]
-  simp only [rtLabel, hvf, hk, hpe, hvs, memInfo_gp64, segmentPrefix, Model.X86.Ctx.aoMask, hm, oZMask, oER, oSAE, oVex, oVex3]
-  simp only [BitVec.ofNat_toNat, BitVec.setWidth_eq, BitVec.zero_and, BitVec.zero_or, BitVec.or_zero, bne_self_eq_false, Bool.false_eq_true, ↓reduceIte,
-    Bool.false_and, gt_iff_lt, Nat.lt_irrefl, Nat.not_lt_zero, BitVec.zero_shiftLeft, BitVec.and_zero, bind, Except.bind, Bool.not_false,
-    show (1 < 6) = True from by decide, show (0x0D#32 &&& 0x80#32 != 0#32) = false from by decide, List.nil_append, List.length_nil,
-    show ((0:Nat) != 0) = false from by decide]
-  generalize vexEvexMPrefix c _ opcode 0#32 _ = r
-  cases r <;> rfl
+  cases z <;> cases a32
+  all_goals
+    simp only [memBase, xMbK, aoBytes, rmInfoBase, zOpt, Bool.false_eq_true, ↓reduceIte]
+    simp only [rtLabel, hk, hpe, hvs, memInfo_gp64, memInfo_gp32, Model.X86.Ctx.aoMask, hm, oZMask, oER, oSAE, oVex, oVex3]
+    simp only [BitVec.ofNat_toNat, BitVec.setWidth_eq, BitVec.zero_and, BitVec.zero_or, BitVec.or_zero, bne_self_eq_false, Bool.false_eq_true, ↓reduceIte,
+      Bool.false_and, gt_iff_lt, Nat.lt_irrefl, Nat.not_lt_zero, BitVec.zero_shiftLeft, BitVec.and_zero, bind, Except.bind, Bool.not_false,
+      show (1 < 6) = True from by decide, show (1 < 5) = True from by decide, show (0x0D#32 &&& 0x80#32 != 0#32) = false from by decide,
+      show (0x8D#32 &&& 0x80#32 != 0#32) = true from by decide, List.nil_append, List.length_nil, List.append_nil,
+      show ((0:Nat) != 0) = false from by decide,
+      show (0x800000#32 &&& (0x800000#32 ||| 0x40000#32 ||| 0x80000#32) != 0#32) = true from by decide,
+      show (0x800000#32 &&& (0x40000#32 ||| 0x80000#32) != 0#32) = false from by decide,
+      show (0x800000#32 &&& 0x800000#32) = 0x800000#32 from by decide,
+      show (0x800000#32 &&& (0x800#32 ||| 0x400#32)) = 0#32 from by decide]
+    generalize vexEvexMPrefix c _ opcode _ _ = r
+    cases r <;> rfl
+/-- `EmitVexEvexM` on a BROADCAST `seg:[base + disp]{1toN}` operand = prefix part with the b bit (bit 20 of `x`), then `EmitModSib` -/
+theorem emitVexEvexM_base_eqB (c : Model.X86.Ctx) (opcode reg vvvvv rb aaa : BitVec 32) (z : Bool) (size : Nat) (d imm : BitVec 64) (n : Nat) (seg : Nat) (a32 : Bool)
+    (bc : Nat) (hbc : bc ≠ 0)
+    (hm : c.mode64 = true) (hpe : c.preferEvex = false) (hk : c.extraId = aaa) (hvs : c.vsib = false) :
+    emitVexEvexM c opcode (zOpt z) (reg + (vvvvv <<< 7)) (memBase size rb d seg a32 bc) imm n =
+      (match vexEvexMPrefix c ((if c.vexFlag then xMbK opcode reg vvvvv rb aaa z ||| 0x100000#32 else xMbK opcode reg vvvvv rb aaa z ||| 0x100000#32 ||| 0x80000000#32) ||| zOpt z)
+          opcode (zOpt z) (memBase size rb d seg a32 bc) with
+       | .error e => .error e
+       | .ok v => emitModSib c (segmentPrefix seg ++ aoBytes a32 ++ v.1) (segmentPrefix seg).length v.2 (zOpt z) ((reg + (vvvvv <<< 7)) &&& 7#32) rb 0#32
+                    (rmInfoBase a32) (memBase size rb d seg a32 bc) imm n false) := by
+  have hbc' : (bc != 0) = true := by simpa using hbc
+  unfold emitVexEvexM
+  cases z <;> cases a32
+  all_goals
+    simp only [memBase, xMbK, aoBytes, rmInfoBase, zOpt, Bool.false_eq_true, ↓reduceIte, hbc']
+    simp only [rtLabel, hk, hpe, hvs, memInfo_gp64, memInfo_gp32, Model.X86.Ctx.aoMask, hm, oZMask, oER, oSAE, oVex, oVex3]
+    simp only [BitVec.ofNat_toNat, BitVec.setWidth_eq, BitVec.zero_and, BitVec.zero_or, BitVec.or_zero, bne_self_eq_false, Bool.false_eq_true, ↓reduceIte,
+      Bool.false_and, gt_iff_lt, Nat.lt_irrefl, Nat.not_lt_zero, BitVec.zero_shiftLeft, BitVec.and_zero, bind, Except.bind, Bool.not_false,
+      show (1 < 6) = True from by decide, show (1 < 5) = True from by decide, show (0x0D#32 &&& 0x80#32 != 0#32) = false from by decide,
+      show (0x8D#32 &&& 0x80#32 != 0#32) = true from by decide, List.nil_append, List.length_nil, List.append_nil,
+      show ((0:Nat) != 0) = false from by decide, show (1#32 <<< 20 : BitVec 32) = 0x100000#32 from by decide,
+      show (0x800000#32 &&& (0x800000#32 ||| 0x40000#32 ||| 0x80000#32) != 0#32) = true from by decide,
+      show (0x800000#32 &&& (0x40000#32 ||| 0x80000#32) != 0#32) = false from by decide,
+      show (0x800000#32 &&& 0x800000#32) = 0x800000#32 from by decide,
+      show (0x800000#32 &&& (0x800#32 ||| 0x400#32)) = 0#32 from by decide]
+    generalize vexEvexMPrefix c _ opcode _ _ = r
+    cases r <;> rfl
 
 theorem cdisp8Shl_low (t : BitVec 32) : ∃ v : BitVec 32, cdisp8Shl t = v <<< 13 := ⟨_, rfl⟩
 
-/-- the prefix part without broadcast: EVEX (opcode word adjusted by the compressed-displacement table), VEX3 or VEX2 (CDSHL cleared) -/
-theorem vexEvexMPrefix_nobcst (c : Model.X86.Ctx) (x opcode : BitVec 32) (m : Mem) (hx20 : x &&& 0x80180040#32 = 0#32) :
-    vexEvexMPrefix c x opcode 0#32 m =
-      .ok (if x &&& 0x00D78150#32 ≠ 0#32 then
+/-- the prefix part without broadcast and without a VSIB index ≥ 16: EVEX (opcode word adjusted by the compressed-displacement table), VEX3 or
+VEX2 (CDSHL cleared); `options` without the `vex3` bit -/
+theorem vexEvexMPrefix_nobcst (c : Model.X86.Ctx) (x opcode options : BitVec 32) (m : Mem) (hx20 : x &&& 0x00180000#32 = 0#32)
+    (hopt : options &&& 0x400#32 = 0#32) :
+    vexEvexMPrefix c x opcode options m =
+      .ok (if x &&& 0x80D78110#32 ≠ 0#32 then
              (le32 (evexWord x opcode) ++ [opcode.truncate 8],
               opcode + cdisp8Shl (((opcode >>> 13) &&& 0x18#32) + ((opcode >>> 25) &&& 0x04#32) + ((evexWord x opcode >>> 29) &&& 0x3#32)))
            else if vexPrep x opcode 0#32 &&& 0x8000807E#32 ≠ 0#32 then
              (le32 (vex3Word (vexPrep x opcode 0#32) (opcode &&& ~~~kCDSHL_Mask)), opcode &&& ~~~kCDSHL_Mask)
            else ([0xC5#8, (vex2Byte (vexPrep x opcode 0#32)).truncate 8, opcode.truncate 8], opcode &&& ~~~kCDSHL_Mask)) := by
-  have hiff : (x &&& 0x80DF8110#32 = 0#32) ↔ (x &&& 0x00D78150#32 = 0#32) := by
+  have hiff : (x &&& 0x80DF8110#32 = 0#32) ↔ (x &&& 0x80D78110#32 = 0#32) := by
     constructor <;> intro h <;> bv_decide
   have hb28 : ((evexWord x opcode &&& 0x10000000#32) != 0#32) = false := by
     simp only [evexWord]; bv_decide
+  have hvp : vexPrep x opcode options = vexPrep x opcode 0#32 := by
+    simp only [vexPrep, oVex3]; bv_decide
   unfold vexEvexMPrefix
-  by_cases h : x &&& 0x00D78150#32 = 0#32
+  rw [hvp]
+  by_cases h : x &&& 0x80D78110#32 = 0#32
   · have h' : x &&& 0x80DF8110#32 = 0#32 := hiff.mpr h
     simp only [h', h, bne_self_eq_false, Bool.false_eq_true, ↓reduceIte, ne_eq, not_true_eq_false]
     by_cases h3 : vexPrep x opcode 0#32 &&& 0x8000807E#32 = 0#32
@@ -161,10 +215,39 @@ theorem vexEvexMPrefix_nobcst (c : Model.X86.Ctx) (x opcode : BitVec 32) (m : Me
     obtain ⟨v, hv⟩ := cdisp8Shl_low ((opcode >>> 13 &&& 24#32) + (opcode >>> 25 &&& 4#32) + (evexWord x opcode >>> 29 &&& 3#32))
     rw [hv]; bv_decide
 
+/-- log2 of the broadcast element size -/
+def bcstShift (unit : Nat) : BitVec 32 := BitVec.ofNat 32 (ctzSmall unit)
+
+/-- the prefix part WITH broadcast: EVEX with b = 1; the L'L bits stay the opcode's when the broadcast's vector size (element size << count)
+does not exceed the form's vector length; the compressed-displacement shift becomes log2 of the element size -/
+theorem vexEvexMPrefix_bcst (c : Model.X86.Ctx) (x opcode options : BitVec 32) (m : Mem)
+    (hx20 : x &&& 0x00100000#32 ≠ 0#32) (hu : c.bcstSize ≠ 0)
+    (hbll : BitVec.ofNat 32 (max (ctzSmall (c.bcstSize <<< m.bcst)) 4 - 4) <<< 29 ≤ evexWord x opcode &&& (0x3#32 <<< 29))
+    (hbll2 : BitVec.ofNat 32 (max (ctzSmall (c.bcstSize <<< m.bcst)) 4 - 4) <<< 29 ≤ 2#32 <<< 29) :
+    vexEvexMPrefix c x opcode options m =
+      .ok (le32 (evexWord x opcode) ++ [opcode.truncate 8], (opcode &&& ~~~kCDSHL_Mask) ||| (bcstShift c.bcstSize <<< 13)) := by
+  have h1 : (x &&& 0x80DF8110#32 != 0#32) = true := by simp only [bne_iff_ne, ne_eq]; bv_decide
+  have hb28 : ((evexWord x opcode &&& 0x10000000#32) != 0#32) = true := by
+    simp only [evexWord, bne_iff_ne, ne_eq]; bv_decide
+  have hu' : (c.bcstSize == 0) = false := by simpa using hu
+  unfold vexEvexMPrefix
+  simp only [h1, hb28, hu', ↓reduceIte, Bool.false_eq_true]
+  generalize hg : BitVec.ofNat 32 (max (ctzSmall (c.bcstSize <<< m.bcst)) 4 - 4) <<< 29 = bLL at *
+  have hgt : ¬ (bLL > 2#32 <<< 29) := by
+    intro h; exact absurd hbll2 (by bv_decide)
+  have hge : evexWord x opcode &&& (0x3#32 <<< 29) ≥ bLL := hbll
+  simp only [hgt, hge, ↓reduceIte, bcstShift]
+  generalize evexWord x opcode = w at *
+  have e1 : (w &&& ~~~(3#32 <<< 29)) ||| (w &&& 3#32 <<< 29) = w := by bv_decide
+  rw [e1]
+  have e2 : BitVec.truncate 8 (opcode &&& ~~~kCDSHL_Mask ||| BitVec.ofNat 32 (ctzSmall c.bcstSize) <<< 13) = BitVec.truncate 8 opcode := by
+    generalize BitVec.ofNat 32 (ctzSmall c.bcstSize) = t
+    simp only [kCDSHL_Mask]; bv_decide
+  rw [e2]
 
 /-- spec-side `[base64 + disp]` operand -/
-def memOpBase (size : Nat) (rb : BitVec 32) (d : BitVec 64) : MemOp :=
-  { size := size, baseKind := .gpq, baseId := rb.toNat, indexKind := .none, indexId := 0, shift := 0, disp := d, seg := 0, bcst := 0, addrType := 0 }
+def memOpBase (size : Nat) (rb : BitVec 32) (d : BitVec 64) (seg : Nat := 0) (a32 : Bool := false) (bc : Nat := 0) : MemOp :=
+  { size := size, baseKind := (if a32 then .gpd else .gpq), baseId := rb.toNat, indexKind := .none, indexId := 0, shift := 0, disp := d, seg := seg, bcst := bc, addrType := 0 }
 
 /-- the opcode word after the EVEX compressed-displacement adjustment of `EmitVexEvexM` (no broadcast) -/
 def evexCdOpcode (opcode xw : BitVec 32) : BitVec 32 :=
@@ -190,159 +273,15 @@ theorem memHead_factsBV (opReg7 rb7 : BitVec 32) (v : Nat) (ho : opReg7 < 8#32) 
     simpa using h5')
   simpa using key
 
-/-- shape [reg, vvvv, MEM = [base64 + disp]], EVEX rule: the bytes of `EmitVexEvexM` (EVEX branch) satisfy the monitor; `hN` is the table-layer
-fact that the rule's disp8*N equals the scale the encoder's compressed-displacement table selects -/
-theorem vexM_rvm_formOk_evex (c : Model.X86.Ctx) (ctx : Spec.X86.Ctx) (rule : Rule) (opcode reg vvvvv rb : BitVec 32) (size : Nat) (d : BitVec 64)
-    (k0 k1 : RegKind) (f0 f1 f2 : FormOp)
-    (hcm : c.mode64 = true) (hpe : c.preferEvex = false) (hk : c.extraId = 0#32) (hvf : c.vexFlag = true) (hvs : c.vsib = false) (hts : c.tsib = false)
-    (hm64 : ctx.mode64 = true) (hmode : (rule.modes &&& 2 != 0) = true)
-    (hr : reg < 32#32) (hv : vvvvv < 32#32) (hb : rb < 16#32) (hxop : opcode &&& 0x800#32 = 0#32)
-    (hev : xR opcode 0#32 reg vvvvv rb 0#32 &&& 0x00D78150#32 ≠ 0#32)
-    (hk0 : PlainKind k0) (hk1 : PlainKind k1)
-    (R : VexRuleM rule 0) (hs : rule.space = 2) (A : RowAgree rule opcode true)
-    (hs6 : cdShiftOf (evexCdOpcode opcode (evexWord (xR opcode 0#32 reg vvvvv rb 0#32) opcode)) ≤ 6#32)
-    (hN : disp8Nf rule ((opcode >>> 29) &&& 3#32).toNat ((((opcode >>> 27) ||| (opcode >>> 28)) &&& 1#32) == 1#32) false =
-          2 ^ (cdShiftOf (evexCdOpcode opcode (evexWord (xR opcode 0#32 reg vvvvv rb 0#32) opcode))).toNat)
-    (hf0 : f0.role = .reg) (hf1 : f1.role = .vvvv) (hf2 : f2.role = .rm)
-    (hal : alignOps rule.oszEff rule.ops [.reg k0 reg.toNat, .reg k1 vvvvv.toNat, .mem (memOpBase size rb d)] =
-           some [(f0, some (.reg k0 reg.toNat)), (f1, some (.reg k1 vvvvv.toNat)), (f2, some (.mem (memOpBase size rb d)))]) :
-    ∃ bytes, emitVexEvexM c opcode 0#32 (reg + (vvvvv <<< 7)) (memBase size rb d) 0 0 = .ok bytes ∧
-      formOk ctx rule [.reg k0 reg.toNat, .reg k1 vvvvv.toNat, .mem (memOpBase size rb d)] {} bytes = true := by
-  obtain ⟨hop, hmap, hpp, hw, hl⟩ := A
-  have hs' : rule.space = 1 ∨ rule.space = 2 ∨ rule.space = 3 := Or.inr (Or.inl hs)
-  -- the emitter's bytes
-  have hx20 : xMb opcode reg vvvvv rb &&& 0x80180040#32 = 0#32 := by simp only [xMb, extractLLMMMMM, kLL_Mask, kMM_Mask, oEvex]; bv_decide
-  rw [emitVexEvexM_base_eq c opcode reg vvvvv rb size d 0 0 hcm hpe hk hvf hvs, vexEvexMPrefix_nobcst c _ opcode _ hx20,
-    xMb_eq_xR opcode reg vvvvv rb hb, if_pos hev]
-  simp only []
-  rw [emitModSib_base_parts c _ 0 _ 0#32 _ rb 0#32 0x0D#32 (memBase size rb d) 0 0 hts (by decide) (by decide)]
-  refine ⟨_, rfl, ?_⟩
-  -- abbreviations
-  have hoff : (memBase size rb d).offLo32 = d.truncate 32 := rfl
-  rw [hoff]
-  obtain ⟨-, e15, e14, e13, e12, e11, e8, e23, e19, e18, e16, e31, e29, e28, e27, e24⟩ :=
-    vex_evex_r_roundtrip opcode 0#32 reg vvvvv rb 0#32 hr hv (by bv_decide) (by decide) hxop (by decide)
-  have hb0 : (evexWord (xR opcode 0#32 reg vvvvv rb 0#32) opcode).truncate 8 = 0x62#8 := by
-    simp only [evexWord, xR, extractLLMMMMM, kLL_Mask, kMM_Mask, oEvex]; bv_decide
-  have hsEq : evexCdOpcode opcode (evexWord (xR opcode 0#32 reg vvvvv rb 0#32) opcode) =
-      opcode + cdisp8Shl (((opcode >>> 13) &&& 0x18#32) + ((opcode >>> 25) &&& 0x04#32) + ((evexWord (xR opcode 0#32 reg vvvvv rb 0#32) opcode >>> 29) &&& 0x3#32)) := rfl
-  rw [← hsEq]
-  generalize hsdef : cdShiftOf (evexCdOpcode opcode (evexWord (xR opcode 0#32 reg vvvvv rb 0#32) opcode)) = s at *
-  generalize hwdef : evexWord (xR opcode 0#32 reg vvvvv rb 0#32) opcode = w at *
-  -- head facts
-  have ho7 : (reg + (vvvvv <<< 7)) &&& 7#32 < 8#32 := by bv_decide
-  have hr7 : rb &&& 7#32 < 8#32 := by bv_decide
-  have hvlt := memVariant_lt (rb &&& 7#32) (d.truncate 32) s
-  have hv5 : memVariant (rb &&& 7#32) (d.truncate 32) s = 0 → rb &&& 7#32 ≠ 5#32 := by
-    intro h0 h5
-    unfold memVariant at h0
-    simp [h5] at h0
-    split at h0 <;> omega
-  obtain ⟨fmod, fsib, freg, flen, fbase⟩ := memHead_factsBV _ _ _ ho7 hr7 hvlt hv5
-  have hmd := memDisp_decoded (rb &&& 7#32) (d.truncate 32) s hs6
-  simp only [] at hmd
-  generalize hvdef : memVariant (rb &&& 7#32) (d.truncate 32) s = v at *
-  generalize hhdef : memHead ((reg + (vvvvv <<< 7)) &&& 7#32) (rb &&& 7#32) v = hd at *
-  have hdl : (memDisp (d.truncate 32) s v).length = dispLen hd.1 hd.2 := by
-    rw [flen]; unfold memDisp
-    have : v = 0 ∨ v = 1 ∨ v = 2 := by omega
-    rcases this with h | h | h <;> subst h <;> simp [le32]
-  have hmodne : bits hd.1 6 2 ≠ 3 := by rw [fmod]; omega
-  simp only [le32, List.cons_append, List.nil_append, hb0, List.append_nil, emitImmediate]
-  have hparse := parse_evex_mem rule (BitVec.truncate 8 (w >>> 8)) (BitVec.truncate 8 (w >>> 16)) (BitVec.truncate 8 (w >>> 24)) (opcode.truncate 8)
-    hd.1 hd.2 (memDisp (d.truncate 32) s v) [] hs R.hpp8 (by rcases R.hmk with h | h <;> simp [h]) (by simp only [bit]; bv_decide)
-    (by simp only [bit]; bv_decide) hmodne fsib hdl (by simp [R.himm, R.hrel]) R.hmoff
-  simp only [List.append_nil] at hparse
-  refine vex_rvm_mem_formOk ctx rule _ hd.1 _ k0 k1 f0 f1 f2 _ _ (memOpBase size rb d) hm64 hmode hk0 hk1 R hf0 hf1 hf2 rfl rfl rfl rfl hal hparse
-    ?P ?hreg ?hvv ?hcm
-  case P =>
-    refine ⟨Or.inr (Or.inr (Or.inl rfl)), rfl, rfl, rfl, hmodne, ?_, ?_, ?_, ?_, ?_, by simp, ?_⟩
-    · show (opcode.truncate 8 : BitVec 8).toNat = rule.opcode
-      rw [hop]; exact toNat_eq_of_zext _ _ (by omega) (by bv_decide)
-    · show bits _ 0 3 = rule.map
-      rw [hmap]; exact toNat_eq_of_zext _ _ (by omega) (by bv_decide)
-    · show bits _ 0 2 = ppWant rule
-      rw [hpp]; exact toNat_eq_of_zext _ _ (by omega) (by bv_decide)
-    · rw [wWant_nonlegacy rule hs']
-      rcases hw with h | h
-      · exact Or.inl h
-      · right
-        simp only [↓reduceIte] at h
-        have hc : ((opcode >>> 27) ||| (opcode >>> 28)) &&& 1#32 = 0#32 ∨ ((opcode >>> 27) ||| (opcode >>> 28)) &&& 1#32 = 1#32 := by bv_decide
-        rcases hc with hc | hc
-        · rw [h, hc]; simp only [bit]; simp; bv_decide
-        · rw [h, hc]; simp only [bit]; simp; bv_decide
-    · rcases hl with h | h
-      · exact Or.inl h
-      · right; show bits _ 5 2 = rule.l; rw [h]; exact toNat_eq_of_zext _ _ (by omega) (by bv_decide)
-    · intro _
-      refine ⟨?_, ?_, ?_, ?_⟩
-      · exact congrArg BitVec.toNat (show BitVec.extractLsb' 0 3 _ = 0#3 by bv_decide)
-      · simp only [bit]; bv_decide
-      · simp only [bit]; bv_decide
-      · show bits _ 0 3 < 8
-        have := (BitVec.extractLsb' 0 3 (BitVec.truncate 8 (w >>> 8))).isLt
-        exact this
-  case hreg =>
-    show regNum _ _ (bits hd.1 3 3) = reg.toNat
-    rw [freg]
-    have e3 : ((reg + (vvvvv <<< 7)) &&& 7#32).toNat = (((reg + (vvvvv <<< 7)) &&& 7#32).truncate 3 : BitVec 3).toNat := by
-      have : ((reg + (vvvvv <<< 7)) &&& 7#32).toNat < 8 := by simpa [BitVec.lt_def] using ho7
-      rw [BitVec.truncate, BitVec.toNat_setWidth]; exact (Nat.mod_eq_of_lt this).symm
-    rw [e3]
-    exact regNum_eq _ _ _ reg (by simp only [bit]; bv_decide)
-  case hvv =>
-    exact regNum_eq4 _ _ vvvvv (by simp only [bit]; bv_decide)
-  case hcm =>
-    have hL : bits (BitVec.truncate 8 (w >>> 24)) 5 2 = ((opcode >>> 29) &&& 3#32).toNat := toNat_eq_of_zext _ _ (by omega) (by bv_decide)
-    have hW : bit (BitVec.truncate 8 (w >>> 16)) 7 = ((((opcode >>> 27) ||| (opcode >>> 28)) &&& 1#32) == 1#32) := by simp only [bit]; bv_decide
-    have hB : bit (BitVec.truncate 8 (w >>> 24)) 4 = false := by simp only [bit]; bv_decide
-    have hX : (!bit (BitVec.truncate 8 (w >>> 8)) 6) = false := by simp only [bit]; bv_decide
-    have hrb3 : (rb &&& 7#32).toNat = ((rb &&& 7#32).truncate 3 : BitVec 3).toNat := by
-      have : (rb &&& 7#32).toNat < 8 := by simpa [BitVec.lt_def] using hr7
-      rw [BitVec.truncate, BitVec.toNat_setWidth]; exact (Nat.mod_eq_of_lt this).symm
-    have hbaseNum : regNum false (!bit (BitVec.truncate 8 (w >>> 8)) 5) (rb &&& 7#32).toNat = rb.toNat := by
-      rw [hrb3]; exact regNum_eq _ _ _ rb (by simp only [bit]; bv_decide)
-    have hne5 : bits hd.1 6 2 = 0 → (rb &&& 7#32).toNat ≠ 5 := by
-      intro h0 h5
-      rw [fmod] at h0
-      exact hv5 h0 (by apply BitVec.eq_of_toNat_eq; simpa using h5)
-    apply checkMem_base64 ctx rule _ (memOpBase size rb d) hd.1 hm64 (by simp) rfl rfl hmodne rfl rfl
-    · obtain ⟨mb, sb⟩ := hd
-      cases sb with
-      | none =>
-        left
-        simp only [headBaseOk, beq_iff_eq] at fbase
-        refine ⟨rfl, ?_, ?_⟩
-        · intro ⟨h0, h5⟩; exact hne5 h0 (by rw [← fbase]; exact h5)
-        · show regNum false _ (bits mb 0 3) = rb.toNat
-          rw [fbase]; exact hbaseNum
-      | some sbyte =>
-        right
-        simp only [headBaseOk, Bool.and_eq_true, beq_iff_eq] at fbase
-        obtain ⟨⟨fb1, fb2⟩, fb3⟩ := fbase
-        refine ⟨sbyte, rfl, ?_, ?_, ?_, fb3⟩
-        · intro ⟨h0, h5⟩; exact hne5 h0 (by rw [← fb1]; exact h5)
-        · show regNum false _ (bits sbyte 0 3) = rb.toNat
-          rw [fb1]; exact hbaseNum
-        · show regNum false (!bit (BitVec.truncate 8 (w >>> 8)) 6) (bits sbyte 3 3) = 4
-          rw [hX, fb2]; rfl
-    · show decodedDisp rule _ = _
-      simp only [decodedDisp, disp8N, hL, hW, hB, hN, beq_self_eq_true, ↓reduceIte]
-      have : (memOpBase size rb d).disp.toNat % 2 ^ 32 = (d.truncate 32 : BitVec 32).toNat := by simp [memOpBase, BitVec.toNat_setWidth]
-      rw [this]
-      exact hmd
-
-
 /-- the adjusted opcode word depends on the opcode word only (the L'L bits of the EVEX prefix are the opcode's LL bits) -/
 def evexCdOpcodeOf (opcode : BitVec 32) : BitVec 32 :=
   opcode + cdisp8Shl (((opcode >>> 13) &&& 0x18#32) + ((opcode >>> 25) &&& 0x04#32) + ((opcode >>> 29) &&& 0x3#32))
 
-theorem evexCdOpcode_eq (opcode reg vvvvv rb : BitVec 32) (hr : reg < 32#32) (hv : vvvvv < 32#32) (hb : rb < 16#32) (hxop : opcode &&& 0x800#32 = 0#32) :
-    evexCdOpcode opcode (evexWord (xR opcode 0#32 reg vvvvv rb 0#32) opcode) = evexCdOpcodeOf opcode := by
-  obtain ⟨-, -, -, -, -, -, -, -, -, -, -, -, e29, -, -, -⟩ :=
-    vex_evex_r_roundtrip opcode 0#32 reg vvvvv rb 0#32 hr hv (by bv_decide) (by decide) hxop (by decide)
-  have : (evexWord (xR opcode 0#32 reg vvvvv rb 0#32) opcode >>> 29) &&& 0x3#32 = (opcode >>> 29) &&& 0x3#32 := by bv_decide
+theorem evexCdOpcode_eq (opcode reg vvvvv xb aaa : BitVec 32) (z : Bool) (hr : reg < 32#32) (hv : vvvvv < 32#32) (hb : xb < 32#32) (ha : aaa < 8#32)
+    (hxop : opcode &&& 0x800#32 = 0#32) :
+    evexCdOpcode opcode (evexWord (xR opcode 0#32 reg vvvvv xb aaa ||| zOpt z) opcode) = evexCdOpcodeOf opcode := by
+  have : (evexWord (xR opcode 0#32 reg vvvvv xb aaa ||| zOpt z) opcode >>> 29) &&& 0x3#32 = (opcode >>> 29) &&& 0x3#32 := by
+    cases z <;> simp only [zOpt, oZMask, evexWord, xR, extractLLMMMMM, kLL_Mask, kMM_Mask, oEvex] <;> bv_decide
   simp only [evexCdOpcode, evexCdOpcodeOf, this]
 
 end AsmjitVerif.Props.C01
